@@ -8,6 +8,8 @@ ones over the last ``generations`` records; Collapse applies both the
 constraints built from the collapses and the termination with the updated mask;
 the kind -> impose_* dispatch covers every Collapse* factory; impose_at stores
 the target itself and impose_as the tracked value (+offset); masks only grow.
+Round 3: impose_measure applies position collapses before weight collapses
+(reference shared with C19.g).
 NOT decided: detectors' numeric results, that the solve terminates, measure
 collapses' numeric effects (C18).
 """
